@@ -57,6 +57,38 @@ fn expect_string_through_rule(text: &str, want: &str) -> Verdict {
     }
 }
 
+/// the same literal as the value of metadata items of a rule text, `@name` and `@description` among them: every one of
+/// them holds the string that is written (a literal does not change with the place it is written in)
+fn expect_string_as_metadata(text: &str, want: &str) -> Verdict {
+    let rule_text = format!("@name: {text};\n@k: {text};\n@description: {text};\n@list: [{text}, {{k: {text}}}];\n{text}");
+    match catch(|| Rule::parse(&rule_text)) {
+        Err(p) => Err(Issue::new("literal:panic", format!("Rule::parse panicked ({p}) on {rule_text:?}"))),
+        Ok(Err(e)) => Err(Issue::new("literal:string:rule-rejected", format!("rule text {rule_text:?} is rejected: {e}"))),
+        Ok(Ok(rule)) => {
+            let is = |v: Option<&Value>| matches!(v, Some(Value::String(s)) if s == want);
+            let list_ok = match rule.get_metadata("list") {
+                Some(Value::Vec(v)) if v.len() == 2 => is(v.first()) && matches!(&v[1], Value::Map(m) if is(m.get("k"))),
+                _ => false,
+            };
+            if rule.name() == want && is(rule.get_metadata("k")) && rule.description() == Some(want) && list_ok && matches!(rule.expr(), Expr::Value(Value::String(s)) if s == want) {
+                Ok(())
+            } else {
+                Err(Issue::new(
+                    "literal:string:as-metadata",
+                    format!(
+                        "string literal {text:?} written as @name, @k, @description, inside @list and as the expression of one rule text: name {:?}, k {:?}, description {:?}, list {:?}, expression {}; each should be {want:?}",
+                        rule.name(),
+                        rule.get_metadata("k").map(show_value),
+                        rule.description(),
+                        rule.get_metadata("list").map(show_value),
+                        show_expr(rule.expr())
+                    ),
+                ))
+            }
+        }
+    }
+}
+
 /// a literal ends where its closing quote stands, whatever precedes that quote and whatever follows in the text
 fn expect_string_among_others(text: &str, want: &str) -> Verdict {
     let full = format!("[{text}, \"z\\\\\", {text}] == {text} // \"not a string\"");
@@ -651,6 +683,9 @@ pub fn run(ctx: &Ctx) {
             }
             expect_literal("string", &text, &Value::String(s.clone()))?;
             expect_string_among_others(&text, &s)?;
+            if !text.contains('\n') && !text.contains('\r') {
+                expect_string_as_metadata(&text, &s)?;
+            }
             expect_string_through_rule(&text, &s)
         },
         |bytes| {
@@ -798,7 +833,11 @@ pub fn replay(j: &serde_json::Value) -> Option<Verdict> {
     }
     if let Some(t) = j.get("string_text").and_then(|x| x.as_str()) {
         let want = j.get("string")?.as_str()?.to_string();
-        return Some(expect_literal("string", t, &Value::String(want.clone())).and_then(|_| expect_string_through_rule(t, &want)));
+        return Some(
+            expect_literal("string", t, &Value::String(want.clone()))
+                .and_then(|_| if !t.contains('\n') && !t.contains('\r') { expect_string_as_metadata(t, &want) } else { Ok(()) })
+                .and_then(|_| expect_string_through_rule(t, &want)),
+        );
     }
     if let Some(w) = j.get("word").and_then(|x| x.as_str()) {
         return Some(check_word(w));
